@@ -57,6 +57,16 @@ func snapOf(p *pooled) string {
 	}
 }
 
+// sliceOf returns n random bytes that are the front of a larger buffer (spare capacity holds stale data), as a slice
+// of a receive buffer would be.
+func sliceOf(r *rng.R, n int) []byte {
+	buf := r.Bytes(n + 4 + r.Intn(8))
+	if r.Chance(1, 3) {
+		return buf[:n:n] // exact capacity
+	}
+	return buf[:n]
+}
+
 func scribbleBytes(b []byte) {
 	for i := range b {
 		b[i] ^= 0xA5
@@ -88,6 +98,11 @@ func (h *history) fillValue(k ref.Kind, known bool) interface{} {
 	}
 	switch {
 	case k == ref.L:
+		if p := h.pickKind("item"); p != nil && r.Chance(1, 3) {
+			// a pooled item (possibly a list with its own variables or ellipsis) becomes the value: it stays in the pool
+			// and is re-read after the fill like everything else
+			return p.item
+		}
 		return []ast.ItemNode{ast.NewBinaryNode(r.Intn(256)), ast.NewUintNode(2, r.Intn(65536)), ast.NewASCIINode(string(h.g.ASCII(r.Intn(4)))), ast.NewListNode()}[r.Intn(4)]
 	case k == ref.A:
 		return string(h.g.ASCII(r.Intn(6)))
@@ -311,7 +326,7 @@ func (h *history) step(i int) {
 			it = p.item
 			mk = p.kinds
 		}
-		sys := r.Bytes(r.Intn(7))
+		sys := sliceOf(r, r.Intn(7))
 		f := r.Intn(256)
 		w := 0
 		if f%2 == 1 {
@@ -338,7 +353,7 @@ func (h *history) step(i int) {
 		if p == nil {
 			return
 		}
-		sys := r.Bytes(r.Intn(7))
+		sys := sliceOf(r, r.Intn(7))
 		o := real.Try(func() {
 			h.add(&pooled{kind: "data", data: p.data.SetSessionIDAndSystemBytes(r.Intn(65536), sys), kinds: p.kinds}, op)
 		})
@@ -437,8 +452,8 @@ func (h *history) step(i int) {
 		}
 	case 11: // control messages
 		op = "factory/control"
-		sys := r.Bytes(4)
-		hdr := r.Bytes(10)
+		sys := sliceOf(r, 4)
+		hdr := sliceOf(r, 10)
 		hdr[4] = 0
 		hdr[5] = byte(r.Intn(11))
 		switch r.Intn(5) {
